@@ -136,12 +136,14 @@ Section Vec.
   Qed.
 
   Definition vbstep (b : block) (c c' : vconc) : Prop := vsteps (bv b) c c'.
+  (* branch conditions do not concern the vector machine *)
+  Definition vcond (t : term) (e : bool) (c : vconc) : Prop := True.
 
   (* every register's dirt at an exit is within the function's claim *)
   Theorem vclaim_sound : forall f,
     check_vclaim claims f = true ->
     forall c tm c', (forall r, c r = 0) ->
-    run vconc vbstep (cfg_of f) 1%positive c tm c' ->
+    run vconc vbstep vcond (cfg_of f) 1%positive c tm c' ->
     match tm with
     | TRet | TTailInd => forall r, r < 32 -> c' r <= nth r (cl_vd (claims (fid f))) 0
     | TTail g => forall r, r < 32 -> Nat.max (c' r) (nth r (cl_vd (claims g)) 3) <= nth r (cl_vd (claims (fid f))) 0
@@ -150,8 +152,8 @@ Section Vec.
     end.
   Proof.
     intros f Hchk c tm c' Hc Hrun. unfold check_vclaim in Hchk.
-    destruct (analyse_sound vstate vconc (fun b => vtf_list claims (bv b)) v_join v_leq
-                (v_term_ok claims (cl_vd (claims (fid f)))) vgamma vbstep) with (f := f) (init := v_init)
+    destruct (analyse_sound vstate vconc (fun b => vtf_list claims (bv b)) (fun _ _ s => s) v_join v_join v_leq
+                (v_term_ok claims (cl_vd (claims (fid f)))) vgamma vbstep vcond) with (f := f) (init := v_init)
                 (c := c) (tm := tm) (c' := c') as [a' [[Hlen Hg] Hok]]; auto.
     - intros b a a0 c0 c1 H1 H2 H3. eapply vtf_list_sound; eauto.
     - apply v_leq_sound.
@@ -173,7 +175,7 @@ Section Vec.
   Theorem clear_check_sound : forall f,
     check_c14 claims f = true ->
     forall c tm c', (forall r, c r = 0) ->
-    run vconc vbstep (cfg_of f) 1%positive c tm c' ->
+    run vconc vbstep vcond (cfg_of f) 1%positive c tm c' ->
     (tm = TRet \/ tm = TTailInd) -> forall r, r < 32 -> c' r = 0.
   Proof.
     intros f Hchk c tm c' Hc Hrun Htm r Hr. unfold check_c14 in Hchk.
@@ -192,7 +194,7 @@ Section Vec.
   Theorem residue_check_sound : forall f res,
     check_c14r claims res f = true ->
     forall c tm c', (forall r, c r = 0) ->
-    run vconc vbstep (cfg_of f) 1%positive c tm c' ->
+    run vconc vbstep vcond (cfg_of f) 1%positive c tm c' ->
     (tm = TRet \/ tm = TTailInd) -> forall r, r < 32 -> c' r <= nth r res 0.
   Proof.
     intros f res Hchk c tm c' Hc Hrun Htm r Hr. unfold check_c14r in Hchk.
